@@ -2,6 +2,7 @@
 //! /repo).  Line protocol: one request per stdin line, one reply per stdout
 //! line.  Every request runs under `catch_unwind`; a panic is reported as the
 //! reply `panic`.
+mod ann;
 mod asm;
 mod dis;
 mod grammar;
@@ -41,6 +42,7 @@ fn dispatch(line: &str) -> String {
         "hexr" => hexio::run_read(&args),
         "hexw" => hexio::run_write(&args),
         "lst" => dis::run_listing(&args),
+        "ann" => ann::run(&args),
         _ => format!("bad-op {}", cmd),
     }
 }
